@@ -205,7 +205,7 @@ macro_rules! collect_exactly_harness {
                         vcover!(yielded >= 1, "collect_exactly: too few items after some");
                         vassert!(all_dropped_once(unsafe { &*tr }), "C19/collect_exactly.failure-drops-the-initialised-prefix-exactly-once");
                         // the iteration may end early without the inner parser having recorded why (at its cap)
-                        vassert!(s.alt.is_some(), "C20/collect_exactly.failure-leaves-pending-error");
+                        vassert_finding!(s.alt.is_some(), "C20/collect_exactly.failure-leaves-pending-error");
                     }
                 }
                 let _ = s0;
